@@ -71,8 +71,8 @@ check('C18', 'other',
       'Bounded round-trip contract with a spec-side STIL printer for tests(), responses(), tests_loc(); mv_transition under pyvc contract where discharged.',
       'bounded over circuits/chains/pattern sets', 'bounded runtime round-trip contract (+ pyvc for mv_transition)', 'DESIGN.md 5-C18')
 check('C20', 'other',
-      'Proved (unbounded, one function): DefWire.wire_points lists exactly the locations of a wire in order with every wildcard replaced by the coordinate in force. Bounded round-trip contract with a spec-side DEF printer: all sections, wildcard resolution, via arrays, per-layer listings for special and regular nets.',
-      'parser, via-array expansion and per-net aggregation outside the VC generator (bounded)', 'contract-based deductive verification of the wildcard resolution (loop invariant with ghost recurrences) + bounded runtime round-trip contract (ghost design)', 'DESIGN.md 5-C20')
+      'Proved (unbounded, two functions): DefWire.wire_points lists exactly the locations of a wire in order with every wildcard replaced by the coordinate in force; DefWire.vias (point lists without via arrays) lists every via once, per type in file order, at the location in force with its orientation or N. Bounded round-trip contract with a spec-side DEF printer: all sections, wildcard resolution, via arrays, per-layer listings for special and regular nets.',
+      'parser, via-array expansion and per-net aggregation outside the VC generator (bounded)', 'contract-based deductive verification of the wildcard resolution for wire points and vias (loop invariants with ghost recurrences) + bounded runtime round-trip contract (ghost design)', 'DESIGN.md 5-C20')
 check('C15', 'other',
       'Proved (unbounded in the extents): unpackbits, packbits (uint8), mv_to_bp, bp_to_mv element-wise on a functional array model and the round trip bp_to_mv(mv_to_bp(x)) = x & 7; popcount table. Bounded: interpret / mvarray / mv_str / bparray and other dtypes vs an independent bit-by-bit oracle over shapes <= 3 axes / extents <= 10 (+16, 17), strings, aliases, 9 dtypes.',
       'numpy packbits/unpackbits/swapaxes/pad/slicing by assumed contracts; string handling bounded', 'contract-based deductive verification on a functional array model + bounded runtime contracts', 'DESIGN.md 5-C15')
